@@ -46,6 +46,8 @@ structure St where
   prevCacheView : List (String × String × Res × Bool) := []
   cfgChanged : Bool := false        -- an accepted configuration change happened earlier in this history
   expectUnchanged : Bool := false   -- the last request was a rejected configuration update: nothing may have changed
+  pods : List String := []          -- pods the runtime currently has
+  cachePods : List String := []     -- pods in the plugin's cache
   unsat : List String := []         -- live containers the policy cannot satisfy at all after the restart (harness probe)
   tainted : Bool := false           -- an unchanged configuration was rejected earlier in this history (known finding); later issues are its consequences
   -- statistics
@@ -284,7 +286,7 @@ def step (st : St) (toks : List String) : St × List Issue :=
   match toks with
   | "H" :: h :: _ :: cfg =>
     ({ st with hist := h.toNat?.getD 0, cfg := " ".intercalate cfg, ctrs := [], snap := ⟨[], [], [], true, true, [], []⟩, initPools := [], haveInit := false,
-               cacheView := [], drained := false, errPending := [], model := none, modelDesync := false, reported := [], tainted := false, cfgChanged := false, expectUnchanged := false, hists := st.hists + 1, lastEv := [] }, [])
+               cacheView := [], drained := false, errPending := [], model := none, modelDesync := false, reported := [], tainted := false, cfgChanged := false, expectUnchanged := false, pods := [], cachePods := [], hists := st.hists + 1, lastEv := [] }, [])
   | "M" :: _ => (st, [])
   | "HERR" :: _ => (st, [])
   | ["Q", "drain"] => (st, [])
@@ -365,13 +367,18 @@ def step (st : St) (toks : List String) : St × List Issue :=
       | ["start", id] => ((match getCtr st id with | some c => setCtr st { c with state := "running" } | none => st), errs)
       | ["stop", id] => ((match getCtr st id with | some c => setCtr st { c with state := "stopped" } | none => st), errs)
       | ["remove", id] => ((match getCtr st id with | some c => setCtr st { c with state := (if c.state == "stopped" || c.state == "refused" then "removed" else "removed-unstopped") } | none => st), errs)
+      | "runpod" :: pid :: _ => ({ st with pods := if st.pods.contains pid then st.pods else pid :: st.pods }, errs)
+      | ["removepod", pid] => ({ st with pods := st.pods.filter (· != pid) }, errs)
+      | ["down-removepod", pid] => ({ st with pods := st.pods.filter (· != pid) }, errs)
       | ["down-remove", id] => ((match getCtr st id with | some c => setCtr st { c with state := "removed" } | none => st), errs)
       | ["down-stop", id] => ((match getCtr st id with | some c => setCtr st { c with state := "stopped" } | none => st), errs)
       | ["down-start", id] => ((match getCtr st id with | some c => setCtr st { c with state := "running" } | none => st), errs)
       | ["down-create", spec, base, stt] =>
         -- created by the runtime while the plugin was down: the runtime has its own (base) resources for it
         match parseEvCtr spec with
-        | some c => (setCtr st { c with state := (if stt == "3" then "running" else "created"), rt := parseRes base, seen := [parseRes base], told := parseRes "-|-|-|-|-|-|-" }, errs)
+        | some c =>
+          let st := { st with pods := if st.pods.contains c.pod then st.pods else c.pod :: st.pods }
+          (setCtr st { c with state := (if stt == "3" then "running" else "created"), rt := parseRes base, seen := [parseRes base], told := parseRes "-|-|-|-|-|-|-" }, errs)
         | none => (st, errs)
       | "restart" :: _ =>
         -- pending marks and error-pending bookkeeping do not survive a restart; every live container is re-allocated
@@ -403,6 +410,7 @@ def step (st : St) (toks : List String) : St × List Issue :=
         (setCtr acc.1 { c with rt := rt', told := overlay c.told r }, errs)
       | none => acc) (st, errs)
     report st errs
+  | ["VP", ps] => ({ st with cachePods := if ps == "-" then [] else ps.splitOn "," }, [])
   | ["V", view] =>
     let cv := if view == "-" then [] else (view.splitOn ",").filterMap fun e => match e.splitOn ":" with
       | [id, stt, res, pend] => some (id, stt, parseRes res, pend == "1")
@@ -457,6 +465,8 @@ def step (st : St) (toks : List String) : St × List Issue :=
           match getCtr st id with
           | some c => if c.state == "removed" || c.state == "removed-unstopped" || c.state == "refused" then errs ++ [s!"C11:stale-container-in-cache-after-restart {id} ({c.state})"] else errs
           | none => errs ++ [s!"C11:unknown-container-in-cache-after-restart {id}"]) errs
+        let errs := st.cachePods.foldl (fun errs p => if !st.pods.contains p then errs ++ [s!"C11:stale-pod-in-cache-after-restart {p}"] else errs) errs
+        let errs := st.pods.foldl (fun errs p => if !st.cachePods.contains p then errs ++ [s!"C11:pod-missing-from-cache-after-restart {p}"] else errs) errs
         let (st, is2) := report st errs
         (st, is ++ is2)
       else (st, is)
